@@ -148,8 +148,8 @@ def gen_cases(tier, seed):
     pairs = [(8, 12), (14, 9), (12, 14), (8, 8), (10, 4), (9, 13), (14, 14), (8, 0), (12, 1), (4, 13), (14, 10), (9, 9)]
     for a, b in (pairs if tier == "thorough" else pairs[:3]):
         cases.append({"k": "interleave", "a": entries[a], "b": entries[b], "steps": 6 if tier == "thorough" else 5})
-    for i in range(6 if tier == "thorough" else 2):
-        cases.append(dict(shared, k="threads", i=i, inject=bool(i % 2), calls=(40 if tier == "thorough" else 25) if not i % 2 else (20 if tier == "thorough" else 10)))
+    for i in range(8 if tier == "thorough" else 4):
+        cases.append(dict(shared, k="threads", i=i, inject=bool(i % 2), calls=(60 if tier == "thorough" else 40) if not i % 2 else (20 if tier == "thorough" else 10)))
     return cases
 
 
@@ -242,7 +242,18 @@ def setup_worker(ctx):
         ld = _LogDict(mdl.estimator.log_likelihood)
         ld.log = log
         mdl.estimator.log_likelihood = ld
+        # attribute writes on the shared objects themselves (scorer, pipeline, vectorizer, estimator): a memo kept there is
+        # shared by every call and every thread
+        for obj in (sc, mdl, mdl.transformer, mdl.estimator):
+            cls = type(obj)
+
+            def __setattr__(self, name, value, _cls=cls):
+                log.append(("setattr", _cls.__name__, name))
+                object.__setattr__(self, name, value)
+
+            obj.__class__ = type(cls.__name__, (cls,), {"__setattr__": __setattr__, "__module__": cls.__module__})
     ctx["mon"].uninstall()   # the plain library: the monitors of other properties are not part of what is observed here
+    ctx["fn_dicts"] = lambda: sorted((n, tuple(sorted(getattr(f, "__dict__", {}).keys()))) for n, (f, p) in L.rule.rules.items())
 
 
 def _digest(L):
@@ -271,6 +282,7 @@ def _history(case, ctx):
     log = ctx["barrier_log"]
     log[:] = []
     d0 = _digest(L)
+    f0 = ctx["fn_dicts"]()
     key = "history/%d" % case["i"]
     if d0 != case["digest"]:
         return C.viol("digest-differs-from-fresh-process", "model/rule-base digest in this long-lived process differs from a fresh one", key, "history")
@@ -318,8 +330,8 @@ def _history(case, ctx):
             mon.events["history_failing_call"] += 1
     if log:
         return C.viol("model-written", "write barrier fired during the history: %s" % log[:3], key, "history")
-    if _digest(L) != d0:
-        return C.viol("model-or-rulebase-digest-changed", "digest changed across the history", key, "history")
+    if _digest(L) != d0 or ctx["fn_dicts"]() != f0:
+        return C.viol("model-or-rulebase-digest-changed", "digest / rule-function attributes changed across the history", key, "history")
     return C.ok(key, "history", nt=repeats > 0, obs_={"history_tail": hist[-8:], "calls": len([h for h in hist if h[0] == "call"]), "repeats_after_other_calls": repeats})
 
 
